@@ -131,7 +131,9 @@ func (streamSelf *StreamDef[T]) Append(item ...T) *StreamDef[T] {
 func (streamSelf *StreamDef[T]) Remove(index int) *StreamDef[T] {
 	var result StreamDef[T]
 	if index >= 0 && index < streamSelf.Len() {
-		result = append((*streamSelf)[:index], (*streamSelf)[index+1:]...)
+		result = make(StreamDef[T], 0, streamSelf.Len()-1)
+		result = append(result, (*streamSelf)[:index]...)
+		result = append(result, (*streamSelf)[index+1:]...)
 	} else {
 		return streamSelf
 	}
@@ -203,14 +205,14 @@ func (streamSelf *StreamDef[T]) Reverse() *StreamDef[T] {
 func (streamSelf *StreamDef[T]) SortByIndex(fn func(a, b int) bool) *StreamDef[T] {
 	// Keep the old value
 	oldValue := streamSelf.Clone()
-	// Make the target for sorting (original)
-	result := *streamSelf
-	sort.SliceStable(result, fn)
-	// Replace values back
-	*streamSelf = *oldValue
+	// Sort in place (fn refers to the indices of this Stream)
+	sort.SliceStable(*streamSelf, fn)
+	// Take the sorted values & put the old values back into the (possibly shared) storage
+	result := streamSelf.Clone()
+	copy(*streamSelf, *oldValue)
 
 	// Return the sorted target
-	return &result
+	return result
 }
 
 // Sort Sort Stream items by Comparator
